@@ -267,7 +267,11 @@ def vw_parser(repo, chk):
             chk.expect_term(vt, val_ok, 'C16.3c', 'R15', fn.site(s), ast.unparse(s.value)[:160],
                             "tokens after the namespace id, empty ones dropped, joined by '-'", f"the cell must be '-'.join(non-empty tokens after the namespace id); found {show(vt)[:160]}")
     if not found:
-        chk.bad('C16.3b', 'R15', fn.site(part_loop), 'HASH[fw_col_mapping[ns]] = tokens', 'no store of the section tokens under the namespace column was found')
+        other = [c for c in ast.walk(part_loop) if isinstance(c, ast.Call) and isinstance(c.func, ast.Attribute) and c.func.attr in ('append', 'extend', 'add', 'update', 'setdefault', '__setitem__')]
+        if other:
+            chk.unsure('C16.3b', 'R15', fn.site(other[0]), ast.unparse(other[0])[:100], 'the section tokens are collected by something other than a keyed store (e.g. pairs gathered and turned into a dict): not compared with HASH[fw_col_mapping[ns]] = tokens')
+        else:
+            chk.bad('C16.3b', 'R15', fn.site(part_loop), 'HASH[fw_col_mapping[ns]] = tokens', 'no store of the section tokens under the namespace column was found')
         return
     roles[hash_name] = ('role', 'hash')
 
